@@ -166,6 +166,12 @@ def statement_functions(depth: int):
     add('lambda-anno-2', 'f: Callable[[int, int], int] = lambda x, y: x * y + a\nreturn f(b, 2)')
     add('lambda-arg', 'return apply(lambda x: x * 2 + a, b)')
     add('lambda-iife', 'return (lambda x: x + 1)(a) + b')
+    # lambdas that are not the first argument, for callables whose parameter types differ from each other and from the result
+    add('lambda-second-arg', 'return apply_at(b, lambda x: x * 2 + a)', needs='callbacks')
+    add('lambda-predicate', 'ys = [a, b, a + b, 3]\nreturn count_if(ys, lambda v: v > 2)', needs='callbacks')
+    add('lambda-two-callbacks', 'ys = map_ints([1, 2, 3], lambda v: v * a)\nreturn count_if(ys, lambda v: v > b)', needs='callbacks')
+    add('lambda-mixed-params', 'w = weigh(2.5, lambda x, k: x * k, a)\nreturn int(w * 2.0) + b', needs='callbacks')
+    add('lambda-str-param', 'return measure(a, \'abc\', lambda s, n: len(s) + n) + b', needs='callbacks')
     add('lambda-returned', 'f = adder(a)\nreturn f(b)')
     # try / raise / except
     add('try-raise-in-body', 'try:\n\tif a > 0:\n\t\traise RuntimeError(\'x\')\n\treturn 1\nexcept RuntimeError as e:\n\treturn 2')
@@ -492,7 +498,28 @@ class Ctr2:
 		self.n = n
 
 '''
-EXTRA_HELPERS = {'myerr': MYERR_HELPER, 'ctr': CTR_HELPER, 'ctr2': CTR2_HELPER}
+CALLBACK_HELPERS = '''
+def apply_at(v: int, f: Callable[[int], int]) -> int:
+	return f(v)
+
+def count_if(xs: list[int], pred: Callable[[int], bool]) -> int:
+	n = 0
+	for x in xs:
+		if pred(x):
+			n += 1
+	return n
+
+def map_ints(xs: list[int], fn: Callable[[int], int]) -> list[int]:
+	return [fn(x) for x in xs]
+
+def weigh(w: float, fn: Callable[[float, int], float], k: int) -> float:
+	return fn(w, k)
+
+def measure(n: int, s: str, fn: Callable[[str, int], int]) -> int:
+	return fn(s, n)
+
+'''
+EXTRA_HELPERS = {'myerr': MYERR_HELPER, 'ctr': CTR_HELPER, 'ctr2': CTR2_HELPER, 'callbacks': CALLBACK_HELPERS}
 FEATURE_FIELDS = {'Pt': ['x', 'y'], 'Ctr': ['n', 'm'], 'Ctr2': ['n'], 'Base': ['v'], 'Derived': ['v', 'extra']}
 
 
